@@ -39,7 +39,7 @@ def run(rep, tier, seed):
     if tier == 'quick':   # a seeded subset of the universe keeps the quick tier around a minute
         import random as _r
         rnd = _r.Random(seed)
-        must = ['set_i1_i9', 'set_ss_st', 'set_ss_st_uni', 'set_ints', 'long_str', 'long_str2', 'long_list', 'deep_dict', 'deep_obj', 'deep_obj_other', 'i1', 'true', 'f1', 'list_i1', 'tuple_i1', 'plain_a1',
+        must = ['txt_alias_new', 'txt_alias_plain', 'set_i1_i9', 'set_ss_st', 'set_ss_st_uni', 'set_ints', 'long_str', 'long_str2', 'long_list', 'deep_dict', 'deep_obj', 'deep_obj_other', 'i1', 'true', 'f1', 'list_i1', 'tuple_i1', 'plain_a1',
                                                                    'other_a1', 'dict_a1', 'dict_dict', 'list_dict2']
         rest = [t for t in toks if t not in must]
         rnd.shuffle(rest)
@@ -141,6 +141,89 @@ def run(rep, tier, seed):
     rep.extra['known_finding_hits'] = k1_hits
     rep.extra['insertion_sensitive_calls'] = sum(ins)
     rep.extra['known_finding_K2_hits'] = k2_hits
+    fallback_lookups(rep, level)
+
+
+def fallback_lookups(rep, level):
+    """Lookup side of the key: a replaying input declared under a *new* alias with the old alias as fallback must find what
+    an input declared under the old alias recorded for the same captured arguments - the key looked up for a fallback alias
+    is the key of that alias (InputKey.tla: SpecKey([call EXCEPT !.alias = fallback])), whatever the arguments contain -
+    and must not find what was recorded for other arguments."""
+    import logging
+    from playback.tape_recorder import TapeRecorder, CapturedArg
+    from playback.tape_cassettes.in_memory.in_memory_tape_cassette import InMemoryTapeCassette
+    from playback import exceptions as pbexc
+    from ..keyuniverse import build
+    logging.disable(logging.CRITICAL)
+    u = build(level)
+    toks = [t for t in ('txt_alias_new', 'txt_alias_plain', 'dict_alias_key', 'i1', 'true', 'ss', 'dict_a1', 'plain_a1',
+                        'list_i1_ss', 'set_ints', 'deep_dict', 'long_str') if t in u]
+    n = 0
+    for capname, ca in (('all', None), ('posx', [CapturedArg(1, 'x')]), ('namek', [CapturedArg(None, 'k')])):
+        for fb_form in ('list', 'callable'):
+            cassette = InMemoryTapeCassette()
+            tr = TapeRecorder(cassette)
+            tr.enable_recording()
+            box = {}
+
+            class Op(object):
+                @tr.operation()
+                def execute(self, fn, args, kwargs):
+                    return fn(self, *args, **kwargs)
+
+                @tr.intercept_input('the.alias.plain', capture_args=ca)
+                def old(self, x=None, k=None):
+                    return box['answer']
+
+                @tr.intercept_input('the.alias.new', capture_args=ca,
+                                    fallback_aliases=(['the.alias.gone', 'the.alias.plain'] if fb_form == 'list'
+                                                      else (lambda *a, **kw: ['the.alias.gone', 'the.alias.plain'])))
+                def new(self, x=None, k=None):
+                    return 'live value (must not be seen in a replay)'
+            import pbverif.opclasses as oc
+            Op.__module__ = oc.__name__
+            Op.__qualname__ = Op.__name__ = 'KeyFallbackOp'
+            oc.KeyFallbackOp = Op
+            for t in toks:
+                def call(pres):
+                    v = u[t]['pres'][pres % len(u[t]['pres'])]()
+                    return ((v,), {}) if capname != 'namek' else ((), {'k': v})
+                box['answer'] = ['answer for', t]
+                a, kw = call(0)
+                Op().execute(Op.old, a, kw)
+                rid = cassette.get_last_recording_id()
+                n += 1
+                a2, kw2 = call(1)
+                try:
+                    pb = tr.play(rid, lambda recording: Op().execute(Op.new, a2, kw2))
+                    got = [o.value for o in pb.playback_outputs if 'operation' in o.key]
+                    ok = bool(got) and got[0]['args'][0] == ['answer for', t]
+                    err = repr(got)[:200]
+                except Exception as ex:  # noqa
+                    ok, err = False, repr(ex)[:300]
+                if not ok:
+                    rep.violation({'summary': 'fallback lookup (capture %s, fallbacks as %s): input renamed from the.alias.plain to '
+                                              'the.alias.new does not find what was recorded for argument %s: %s'
+                                              % (capname, fb_form, t, err), 'signature': None},
+                                  replay={'kind': 'fallback', 'capture': capname, 'form': fb_form, 'token': t})
+                # another argument must not be answered from this recording
+                other = 'i1' if t != 'i1' else 'ss'
+                vo = u[other]['pres'][0]()
+                ao, kwo = (((vo,), {}) if capname != 'namek' else ((), {'k': vo}))
+                try:
+                    pb = tr.play(rid, lambda recording: Op().execute(Op.new, ao, kwo))
+                    got = [o.value for o in pb.playback_outputs if 'operation' in o.key]
+                    rep.violation({'summary': 'fallback lookup (capture %s): a call with argument %s was answered from the recording of '
+                                              'argument %s: %r' % (capname, other, t, got), 'signature': None},
+                                  replay={'kind': 'fallback', 'capture': capname, 'form': fb_form, 'token': t})
+                except pbexc.RecordingKeyError:
+                    pass
+                except Exception as ex:  # noqa
+                    if 'RecordingKeyError' not in repr(ex):
+                        rep.violation({'summary': 'fallback lookup (capture %s): replay of another argument raised %r' % (capname, ex),
+                                       'signature': None}, replay={'kind': 'fallback', 'capture': capname, 'form': fb_form, 'token': t})
+    rep.evaluations += 2 * n
+    rep.extra['fallback_lookups'] = n
 
 
 def replay(rep, body):
